@@ -51,6 +51,45 @@ impl KnownWord {
 //@end
 }
 
+// The truncating conversions of src/vm/value/known.rs, extracted so that an edit that routes a jump target
+// through one of them reaches the contracts (they keep only the low 64 / 32 bits).
+impl vstd::std_specs::convert::FromSpecImpl<KnownWord> for usize { open spec fn obeys_from_spec() -> bool { false } open spec fn from_spec(v: KnownWord) -> usize { arbitrary() } }
+impl<'a> vstd::std_specs::convert::FromSpecImpl<&'a KnownWord> for usize { open spec fn obeys_from_spec() -> bool { false } open spec fn from_spec(v: &'a KnownWord) -> usize { arbitrary() } }
+impl vstd::std_specs::convert::FromSpecImpl<KnownWord> for u32 { open spec fn obeys_from_spec() -> bool { false } open spec fn from_spec(v: KnownWord) -> u32 { arbitrary() } }
+impl<'a> vstd::std_specs::convert::FromSpecImpl<&'a KnownWord> for u32 { open spec fn obeys_from_spec() -> bool { false } open spec fn from_spec(v: &'a KnownWord) -> u32 { arbitrary() } }
+//@extract file=src/vm/value/known.rs path="impl From<KnownWord> for usize" kind=header
+//@end
+//@extract file=src/vm/value/known.rs path="impl From<KnownWord> for usize|fn from"
+//@ret r
+//@spec
+        ensures r as nat == value.v() % 0x1_0000_0000_0000_0000,
+//@end
+}
+//@extract file=src/vm/value/known.rs path="impl From<&KnownWord> for usize" kind=header
+//@end
+//@extract file=src/vm/value/known.rs path="impl From<&KnownWord> for usize|fn from"
+//@ret r
+//@spec
+        ensures r as nat == value.v() % 0x1_0000_0000_0000_0000,
+//@end
+}
+//@extract file=src/vm/value/known.rs path="impl From<KnownWord> for u32" kind=header
+//@end
+//@extract file=src/vm/value/known.rs path="impl From<KnownWord> for u32|fn from"
+//@ret r
+//@spec
+        ensures r as nat == value.v() % 0x1_0000_0000,
+//@end
+}
+//@extract file=src/vm/value/known.rs path="impl From<&KnownWord> for u32" kind=header
+//@end
+//@extract file=src/vm/value/known.rs path="impl From<&KnownWord> for u32|fn from"
+//@ret r
+//@spec
+        ensures r as nat == value.v() % 0x1_0000_0000,
+//@end
+}
+
 // ---- the value tree, reduced ---------------------------------------------------------------------
 /// A-CALLEE (type stand-in for `SymbolicValueData<RuntimeAuxData>`): the variants the code under contract
 /// names, and one variant for the other 66.
@@ -300,6 +339,21 @@ impl Clone for VMThread {
 }
 //@extract file=src/vm/thread.rs path="impl VMThread" kind=header
 //@end
+//@extract file=src/vm/thread.rs path="impl VMThread|fn new"
+//@ret r
+//@spec
+        ensures r.state == state, r.thread == thread, r.gas_usage == 0,          //@ob C03.ctl.thread_new.starts_with_no_gas
+//@end
+//@extract file=src/vm/thread.rs path="impl VMThread|fn consume_gas"
+//@spec
+        requires old(self).gas_usage + gas <= usize::MAX,
+        ensures final(self).gas_usage == old(self).gas_usage + gas, final(self).state == old(self).state, final(self).thread == old(self).thread,
+//@end
+//@extract file=src/vm/thread.rs path="impl VMThread|fn gas_usage"
+//@ret r
+//@spec
+        ensures r == self.gas_usage,
+//@end
 //@extract file=src/vm/thread.rs path="impl VMThread|fn state_mut"
 //@ret r
 //@spec
@@ -319,7 +373,7 @@ impl Clone for VMThread {
             (target as int) < self.thread.code().len() ==> r.thread.ip() == target,                            //@ob C08.ctl.thread_fork.starts_at_target
             (target as int) >= self.thread.code().len() ==> r.thread.ip() == self.thread.ip(),
             r.state.stack == self.state.stack, r.state.memory == self.state.memory, r.state.recorded_values == self.state.recorded_values,      //@ob C08.ctl.thread_fork.same_state
-            r.gas_usage == self.gas_usage,
+            r.gas_usage == self.gas_usage,            //@ob C03.ctl.thread_fork.inherits_gas
 //@end
 }
 
